@@ -45,7 +45,7 @@ CHECKS = {
         design="8/C19"),
     "C05": dict(
         technique="Coq totality theorems (no Panic/OutOfFuel result for any byte string, any callback behaviour) over models with explicit Go panic semantics + recover-mapped differential on hostile inputs incl. >65535 bytes",
-        text="Decoder half: c05_update_decode, c05_attr_decoders, c05_prefixes, c05_addpath_prefixes, c05_mp_splitters, c05_addpath_tuples, c05_message_from_bytes prove that every exported decoding entry point (and the reader's per-message decoder) returns a value or an error for every byte string; slice-bounds panics and uint8/uint16 wrap-around are part of the model, so a panic would be a distinct result. The Go code is run on the same hostile inputs with recover; a PANIC outcome is a violation with the crashing bytes as replay.",
+        text="Decoder half: c05_update_decode, c05_attr_decoders, c05_prefixes, c05_addpath_prefixes, c05_mp_splitters, c05_addpath_tuples, c05_message_from_bytes prove that every exported decoding entry point (and the reader's per-message decoder) returns a value or an error for every byte string; slice-bounds panics and uint8/uint16 wrap-around are part of the model, so a panic would be a distinct result. The Go code is run on the same hostile inputs with recover; a PANIC outcome is a violation with the crashing bytes as replay. API-order half: c05_second_serve_refused, c05_finished_server_never_serves over the registry/lifecycle model; generated sequences of AddPeer/DeletePeer/GetPeer/ListPeers/Serve/Close and a failing listener are run on real Server objects (a panic in a corebgp goroutine kills the driver process: the case is isolated and reported; found D16).",
         note="The wedge half is decided on live servers: hostile streams at every FSM state on both directions, then a probe session must establish and Close must return. Blocked TCP writes are runtime behaviour outside the model (known finding D13, reported by C10).",
         design="8/C05"),
     "C12": dict(
@@ -60,7 +60,7 @@ CHECKS = {
         design="8/C13"),
     "C20": dict(
         technique="Coq refinement to an abstract map (step_refines), inductive lifecycle invariant over all operation sequences, validate = usable; differential on real Server op sequences incl. Serve/Close + dict reference oracle",
-        text="c20_refines: every registry operation on a state satisfying the invariant returns what the abstract map keyed by remote address dictates and transforms it accordingly (exists/not-exist errors, List = exactly the present configs, rejection has no side effect, Serve after Close refused); c20_run_inv: distinct valid keys and 'serving => every registered peer runs, otherwise none' hold after every operation sequence; c20_validate_iff: AddPeer accepts exactly usable configurations; c20_router_id. Real Server objects run generated op sequences (Serve in a goroutine, Close) and the full validation grid.",
+        text="c20_refines: every registry operation on a state satisfying the invariant returns what the abstract map keyed by remote address dictates and transforms it accordingly (exists/not-exist errors, List = exactly the present configs, rejection has no side effect, Serve after Close refused); c20_run_inv: distinct valid keys and 'serving => every registered peer runs, otherwise none' hold after every operation sequence; c20_validate_iff: AddPeer accepts exactly usable configurations; c20_router_id. c20_serve_while_serving, c20_listener_failure_is_final, c20_finished_server_never_serves cover Serve-while-serving and a failing listener. Real Server objects run generated op sequences (Serve on a real listener, Serve again, listener failure, Close) and the full validation grid incl. IPv4-mapped IPv6 addresses.",
         note="Trusted: atomicity of operations under Server.mu (sync.Mutex), so concurrent histories are lock-serialised sequential ones; that a started peer dials/accepts is decided by the system-level checks (C10/C11).",
         design="8/C20"),
 }
